@@ -6,4 +6,4 @@ import (
 )
 
 func newReq(target string) *http.Request { return httptest.NewRequest(http.MethodGet, target, nil) }
-func newRW() *respWriter                  { return &respWriter{rec: httptest.NewRecorder()} }
+func newRW() *respWriter                 { return &respWriter{rec: httptest.NewRecorder()} }
